@@ -224,7 +224,7 @@ func c09Check(p c09Params, out *c09Obs) func(res *vrt.Result) *explore.Finding {
 }
 
 func c09Units(thorough bool) []*explore.Unit {
-	var units []*explore.Unit
+	units := c09WDebugUnits(thorough)
 	add := func(p c09Params, bound int) {
 		p.name = fmt.Sprintf("%s|callers=%v|warm=%v|event=%s@%d|hold=%s%s", p.layout, p.callers, p.warm, p.event, p.evAfter, p.hold, stepSuffix(p.evStep))
 		if p.debug {
@@ -443,7 +443,7 @@ func init() {
 		ID:   "C09", Level: "model_checking",
 		Technique:   "stateless model checking of the real top-level client (availability channels, establishers, connection cache) over a simulated cluster: concurrent callers x faults x fault positions x all schedules up to a deviation bound; plus a separate free-running -race pass of the same bodies (sampling, reported as such)",
 		Rule:        "units = layout {two regions on one shared connection, on two servers, three regions on two servers} x 2-3 concurrent callers (distinct / same / crossing keys) x fault {connection reset, crash with reassignment, NSRE bursts on one region or the whole table, split, split with the daughter still opening, merge, server-stopped exception, move} x {cold burst, warm cache with one request held in flight and the fault fired after the k-th server-side attempt, k=0..3}; every schedule with <=2 deviations for cold bursts, <=1 for positioned faults (thorough: 2-3). Oracle: no panic in any thread (a double release is 'close of nil channel'), every request returns successfully, and once the cluster is stable no cached region is marked unavailable and no client thread is still running. Non-trivial = at least one non-default scheduling choice. Additionally every event fires at EVERY scheduling step of a cold burst of two callers (different regions / the same key) and of two callers with one region known, in all three layouts (vrt.GoInterrupt: the event's thread is created waiting for that step and is the default choice there, so its position is a parameter of the unit and costs no deviation), with <=1 further deviation (thorough: 400 positions, and 2 deviations for connection reset / crash with one region known).",
-		Assumptions: []string{"also: the client's state dumped twice (gohbase.DebugState) while one request runs and a connection reset / crash / split / merge hits, <=2 deviations; fmt.Sprintf(\"%p\") in the code under test is rewritten to per-execution serial numbers so that the dump is ordered identically in every replay", "tier L (simulated region clients)", "the data-race clause is covered only by the free-running -race pass (sampling)"},
+		Assumptions: []string{"also: the client's state dumped twice (gohbase.DebugState) while one request runs and a connection reset / crash / split / merge hits, <=2 deviations (tier L), and with real region clients while two requests run and a reset / split hits, <=1 (thorough 2) deviations (tier W); fmt.Sprintf(\"%p\") in the code under test is rewritten to per-execution serial numbers so that the dump is ordered identically in every replay", "tier L (simulated region clients)", "the data-race clause is covered only by the free-running -race pass (sampling)"},
 		Quick:       150 * time.Second, Thorough: 30 * time.Minute,
 		Units: c09Units,
 	})
